@@ -229,9 +229,21 @@ class Interp(Engine):
         else:
             raise Unsupported("store to %r" % (loc,))
 
+    def name_value(self, hint, val):
+        """let-binding: name a compound term by a fresh constant (keeps VCs small and E-matching effective)"""
+        if self.spec_mode or not isinstance(val, P) or val.ty.kind == "bv":
+            return val
+        t = val.term
+        if not z3.is_app(t) or t.num_args() == 0 or all(c.num_args() == 0 for c in t.children() if z3.is_app(c)) \
+                and t.num_args() <= 2:
+            return val
+        c = z3.Const(self.fresh_name("let." + hint), t.sort())
+        self.st.pc.append(c == t)
+        return P(val.ty, c)
+
     def assign(self, target, val):
         if isinstance(target, ast.Name):
-            self.st.vars[target.id] = val
+            self.st.vars[target.id] = self.name_value(target.id, val)
         elif isinstance(target, (ast.Tuple, ast.List)):
             items = lib.unpack(self, val, len(target.elts))
             for t, v in zip(target.elts, items):
